@@ -40,6 +40,9 @@ def plan(tier, seed, drivers=("h5", "ih5")):
             parts.append(Part(H, "seq", {"drv": drv, "k": k, "first": first}, 900 if tier == "quick" else 8000, 300,
                               "after every action: TOC links <-> attached objects one-to-one, uuids unique, schema/package records exactly for schemas in use, no empty bookkeeping groups, in-memory index == disk; metadata comes back, queries exact; user tree == model",
                               weight=2))
+    import vt.contactions as _CA
+    for sel in _CA.mirror_sels():
+        parts.append(Part("vt.harness.cont", "seq", dict(sel, **{}), 900 if tier == "quick" else 3000, 300, "container level, mirrored names (g/g/e2 exists, g/e2 free): operations through sub-group handles resolve relative targets against the handle on both drivers", weight=2))
     return parts
 
 
